@@ -276,6 +276,7 @@ pub fn dispatch(cmd: &str, name: &str, arg: &str) -> Option<String> {
     if name.starts_with("feedback.") { return dispatch_feedback(cmd, name, arg); }
     if name.starts_with("reshape.") { return dispatch_reshape(cmd, name, arg); }
     if name == "tensor.elementwise" || name == "activation.elementwise" { return dispatch_elementwise(cmd, name, arg); }
+    if name == "tensor.linear" || name == "dense.linear.forward" || name == "dense.linear.backward" { return dispatch_linear(cmd, name, arg); }
     if !["conv", "deconv", "pool"].iter().any(|p| name.starts_with(p)) { return None; }
     std::panic::set_hook(Box::new(|_| {}));
     if cmd == "run" {
@@ -1376,6 +1377,73 @@ pub fn dispatch_objective_cells(cmd: &str, _name: &str, arg: &str) -> Option<Str
     for w in 0..7usize { for c in [false, true] { for d in &grid {
         tried += 1;
         if let Err(e) = one(w, c, d.clone()) { return Some(format!("{{\"failed\":true,\"tried\":{},\"input\":{},\"detail\":{:?}}}", tried, fmt(w, c, d), e)); }
+    }}}
+    Some(format!("{{\"failed\":false,\"tried\":{}}}", tried))
+}
+
+// ------------------------------------------------------------------------------------------------ dot / outer product / transpose / dense layer on non-square operands (C15, C02, C01)
+// Integer-valued data: every product and sum is exact in f32, so equality with the index definition is exact.
+pub fn linear_one(rows: usize, cols: usize, bias: bool, part: usize) -> Result<(), String> {
+    let w: Vec<Vec<f32>> = (0..rows).map(|i| (0..cols).map(|j| ((i * 3 + j * 5 + 1) % 7) as f32 - 3.0).collect()).collect();
+    let x: Vec<f32> = (0..cols).map(|j| ((j * 2 + 1) % 5) as f32 - 2.0).collect();
+    let y: Vec<f32> = (0..rows).map(|i| ((i * 4 + 2) % 5) as f32 - 1.0).collect();
+    let b: Vec<f32> = (0..rows).map(|i| (i % 3) as f32 - 1.0).collect();
+    let (wt, xt, yt) = (Tensor::double(w.clone()), Tensor::single(x.clone()), Tensor::single(y.clone()));
+    if part == 0 {
+    // matrix-vector product
+    let d = wt.dot(&xt);
+    let want: Vec<f32> = (0..rows).map(|i| (0..cols).map(|j| w[i][j] * x[j]).sum()).collect();
+    if !matches!(d.shape, Shape::Single(n) if n == rows) || cells(&d, &[rows]).map(|g| g != want).unwrap_or(true) { return Err(format!("dot: result {:?} but sum_j m[i][j]*x[j] = {:?}", d.data, want)); }
+    // outer product y x^T
+    let p = yt.product(&xt);
+    let want: Vec<f32> = (0..rows).flat_map(|i| (0..cols).map(move |j| (i, j))).map(|(i, j)| y[i] * x[j]).collect();
+    if !matches!(p.shape, Shape::Double(a, c) if (a, c) == (rows, cols)) || cells(&p, &[rows, cols]).map(|g| g != want).unwrap_or(true) { return Err(format!("product: result {:?} but y[i]*x[j] = {:?}", p.data, want)); }
+    // transpose
+    let t = wt.transpose();
+    let want: Vec<f32> = (0..cols).flat_map(|j| (0..rows).map(move |i| (i, j))).map(|(i, j)| w[i][j]).collect();
+    if !matches!(t.shape, Shape::Double(a, c) if (a, c) == (cols, rows)) || cells(&t, &[cols, rows]).map(|g| g != want).unwrap_or(true) { return Err(format!("transpose: result {:?} is not m[j][i]", t.data)); }
+    return Ok(());
+    }
+    // dense layer, linear activation: forward = W x (+ b); backward: input gradient = W^T g, weight gradient = g x^T, bias gradient = g
+    let mut layer = dense::Dense::create(Shape::Single(cols), Shape::Single(rows), &Activation::Linear, bias, None);
+    layer.weights = Tensor::double(w.clone());
+    if bias { layer.bias = Some(Tensor::single(b.clone())); }
+    let (pre, post) = layer.forward(&xt);
+    let want: Vec<f32> = (0..rows).map(|i| (0..cols).map(|j| w[i][j] * x[j]).sum::<f32>() + if bias { b[i] } else { 0.0 }).collect();
+    if part == 1 {
+        if cells(&pre, &[rows]).map(|g| g != want).unwrap_or(true) || cells(&post, &[rows]).map(|g| g != want).unwrap_or(true) { return Err(format!("Dense::forward: {:?} but W x + b = {:?}", post.data, want)); }
+        return Ok(());
+    }
+    let post = Tensor::single(want);      // (the backward part does not depend on forward being right)
+    let (ig, wg, bg) = layer.backward(&yt, &xt, &post);
+    let want_ig: Vec<f32> = (0..cols).map(|j| (0..rows).map(|i| w[i][j] * y[i]).sum()).collect();
+    if cells(&ig, &[cols]).map(|g| g != want_ig).unwrap_or(true) { return Err(format!("Dense::backward: input gradient {:?} but W^T g = {:?}", ig.data, want_ig)); }
+    let want_wg: Vec<f32> = (0..rows).flat_map(|i| (0..cols).map(move |j| (i, j))).map(|(i, j)| y[i] * x[j]).collect();
+    if cells(&wg, &[rows, cols]).map(|g| g != want_wg).unwrap_or(true) { return Err(format!("Dense::backward: weight gradient {:?} but g x^T = {:?}", wg.data, want_wg)); }
+    match (bias, bg) {
+        (true, Some(g)) => if cells(&g, &[rows]).map(|g| g != y).unwrap_or(true) { return Err(format!("Dense::backward: bias gradient {:?} but g = {:?}", g.data, y)); },
+        (false, None) => {},
+        _ => return Err("Dense::backward: a bias gradient exists iff the layer has a bias - violated".into()),
+    }
+    Ok(())
+}
+pub fn dispatch_linear(cmd: &str, name: &str, arg: &str) -> Option<String> {
+    let part = match name { "tensor.linear" => 0usize, "dense.linear.forward" => 1, _ => 2 };
+    if std::env::var("VERIF_SHOW_PANIC").is_err() { std::panic::set_hook(Box::new(|_| {})); }
+    let fmt = |r: usize, c: usize, b: bool| format!("{{\"rows\":{},\"cols\":{},\"bias\":{}}}", r, c, b);
+    let one = |r: usize, c: usize, b: bool| -> Result<(), String> {
+        match std::panic::catch_unwind(move || linear_one(r, c, b, part)) { Ok(x) => x, Err(_) => Err("the operation panicked on well-formed operands".into()) }
+    };
+    if cmd == "run" {
+        let v: Vec<usize> = arg.replace("true", "1").replace("false", "0").split(|c: char| !c.is_ascii_digit()).filter(|x| !x.is_empty()).filter_map(|x| x.parse().ok()).collect();
+        if v.len() != 3 { return None; }
+        return Some(match one(v[0], v[1], v[2] != 0) { Ok(()) => format!("{{\"failed\":false,\"input\":{}}}", fmt(v[0], v[1], v[2] != 0)), Err(e) => format!("{{\"failed\":true,\"input\":{},\"detail\":{:?}}}", fmt(v[0], v[1], v[2] != 0), e) });
+    }
+    let m = if big() { 7usize } else { 5usize };
+    let mut tried = 0usize;
+    for r in 1..=m { for c in 1..=m { for b in [false, true] {
+        tried += 1;
+        if let Err(e) = one(r, c, b) { return Some(format!("{{\"failed\":true,\"tried\":{},\"input\":{},\"detail\":{:?}}}", tried, fmt(r, c, b), e)); }
     }}}
     Some(format!("{{\"failed\":false,\"tried\":{}}}", tried))
 }
